@@ -1,5 +1,5 @@
 ------------------------------- MODULE MC_Glide -------------------------------
-EXTENDS Glide, TLC
+EXTENDS Glide, TLC, Json
 
 CONSTANTS Times, Inputs, SettleBound
 
@@ -18,6 +18,17 @@ TProc(v) == Process(v) /\ kind' = "proc" /\ req' = req
 MCInit == GInit /\ kind = "new" /\ req = -1 /\ since = 0
 MCNext == (\E t \in Times : TSet(t)) \/ (\E v \in Inputs : TProc(v))
 MCSpec == MCInit /\ [][MCNext]_mcVars
+
+\* ---- every-transition replay graph of the dead-band logic on the real GlideProcessor (Graph_Glide.cfg, 100 Hz:
+\* TFast = 2 units of 10 ms). set_time has no read-back, so the graph has one observing operation: "probe" feeds
+\* a step and compares the response with that of a new processor given the time the specification says is in
+\* effect. A probe moves the filter state, which this graph does not model: it leads to a sink.
+GKey == <<cached, eff, kind = "probe">>
+GLbl(op) == PrintT(<<"EDGE", ToJson(<<GKey, op, <<cached', eff', kind' = "probe">>, <<eff'>>>>)>>)
+GSet(t) == kind # "probe" /\ TSet(t) /\ GLbl([op |-> "set", t |-> t, h |-> Honoured(t)])
+GProbe  == kind # "probe" /\ kind' = "probe" /\ UNCHANGED <<gVars, req, since>> /\ GLbl([op |-> "probe"])
+GInitE  == MCInit /\ PrintT(<<"INIT", ToJson(<<GKey, <<eff>>>>)>>)
+GSpec   == GInitE /\ [][(\E t \in Times : GSet(t)) \/ GProbe]_mcVars
 
 Prop_C13_monotone == [][kind' = "proc" => C13_monotone(x')]_mcVars
 \* an input held for SettleBound samples has been reached (settles, never keeps oscillating)
